@@ -77,7 +77,7 @@ theorem init_inv (n0 : Nat) (threads : List (List Ev)) (h : ∀ t ∈ threads, d
     simp at hr
   · intro i hi; simp [init] at hi
 
-private theorem set_cases {l : List Thread} {i j : Nat} {x t : Thread} (hlt : i < l.length)
+theorem set_cases {l : List Thread} {i j : Nat} {x t : Thread} (hlt : i < l.length)
     (h : (l.set i x)[j]? = some t) : (j = i ∧ t = x) ∨ (j ≠ i ∧ l[j]? = some t) := by
   by_cases hji : j = i
   · subst hji
@@ -87,7 +87,7 @@ private theorem set_cases {l : List Thread} {i j : Nat} {x t : Thread} (hlt : i 
     exact Or.inr ⟨hji, h⟩
 
 /-- what the discipline says about the thread that moves -/
-private theorem head_phase {s : State} {i : Nat} {e : Ev} {rest : List Ev} {reg : Option Nat}
+theorem head_phase {s : State} {i : Nat} {e : Ev} {rest : List Ev} {reg : Option Nat}
     (hd : disc (phase s i ⟨e :: rest, reg⟩) (e :: rest) = true) :
     (e = .acq ∧ reg = none ∧ s.holder ≠ some i ∧ disc .held rest = true) ∨
     (e = .rel ∧ reg = none ∧ s.holder = some i ∧ disc .out rest = true) ∨
@@ -339,7 +339,7 @@ theorem progress (h : ∀ t ∈ threads, disc .out t = true)
 
 def remaining (s : Conc.State) : Nat := (s.threads.map (fun t => t.evs.length)).sum
 
-private theorem sum_set (l : List Thread) (i : Nat) (e : Ev) (rest : List Ev) (reg reg' : Option Nat)
+theorem sum_set (l : List Thread) (i : Nat) (e : Ev) (rest : List Ev) (reg reg' : Option Nat)
     (h : l[i]? = some ⟨e :: rest, reg⟩) :
     ((l.set i ⟨rest, reg'⟩).map (fun t => t.evs.length)).sum + 1 = (l.map (fun t => t.evs.length)).sum := by
   induction l generalizing i with
